@@ -2,6 +2,7 @@ import PP.Driver.Codec
 import PP.Model.Aggregate
 import PP.Model.Names
 import PP.Model.Loop
+import PP.Driver.OpsC19
 /-
 Request handlers of the model driver.
 -/
@@ -150,6 +151,9 @@ def handle (j : Json) : Except String Json := do
     let data ← getBytes j "data"
     let names ← getBool j "names"
     pure (encScanResult (scanSnapshotL names data (← decFinal j)))
-  | _ => throw s!"unknown op {op}"
+  | _ =>
+    match PP.OpsC19.handle op j with
+    | some r => r
+    | none => throw s!"unknown op {op}"
 
 end PP.Ops
